@@ -267,12 +267,10 @@ func evalC12(c *Ctx, cs *Case, lm *mon.LeakMonitor) {
 		var calls int
 		var o Outcome
 		var g mon.GuardResult
-		if e.massive {
-			g = lm.RunGuarded(func() { out, calls, o = e.run(doc, context.Background(), target) }, 120*time.Second)
-		} else {
-			out, calls, o = e.run(doc, context.Background(), target)
-			g.Returned = true
-		}
+		// every call runs under the guard: massive calls for deadlocks, all calls for the 120 s
+		// per-call watchdog (a call on a small input that has not returned by then while its
+		// goroutines are still running is reported as non-terminating)
+		g = lm.RunGuarded(func() { out, calls, o = e.run(doc, context.Background(), target) }, 120*time.Second)
 		nontrivial := len(doc) > 0
 		c.Eval(gen.HashString(doc+"\x00"+cs.Entry), nontrivial)
 		c.SetAdd("entries", cs.Entry)
@@ -284,7 +282,14 @@ func evalC12(c *Ctx, cs *Case, lm *mon.LeakMonitor) {
 			c.Violation(cs, "hang", g.Signature, det)
 			c.Recycle()
 		case g.Timeout:
-			c.Inconclusive(cs, "watchdog fired while goroutines were active: "+g.Signature)
+			if len(doc) <= 10000 {
+				// 120 s for an input of a few hundred bytes is more than 10^5 times the normal
+				// duration: the call does not terminate for practical purposes
+				det["dump"] = trunc(g.Dump, 3000)
+				c.Violation(cs, "no-return", g.Signature, det)
+			} else {
+				c.Inconclusive(cs, "watchdog fired while goroutines were active: "+g.Signature)
+			}
 			c.Recycle()
 		case g.Panic != nil:
 			det["stack"] = g.PanicStk
